@@ -89,24 +89,24 @@ def grep_gate():
 PROPS = {
     "C01": [("Rank.v", r"^C01_"), ("Instance.v", r"^I_C01_|^I_a_quantile|^I_a_rank"), ("Refine.v", r"Rf_plain_quantile|Rf_executable_quantile|Rf_plain_add"), ("Rounding.v", r"R_rnd64_rndQ|R_rndQ_mono|R_rndQ_int|R_q2f_correct")],
     "C02": [("Sketch.v", r"^C02_"), ("LayerA.v", r"^A3_"), ("Refine.v", r"Rf_st_merge|Rf_sk_merge|Rf_sketch_history")],
-    "C03": [("C03.v", r".")],
+    "C03": [("C03.v", r"."), ("Glue.v", r".")],
     "C04": [("C04dense.v", r"."), ("C04pag.v", r"."), ("C04pagloops.v", r"."), ("C04sparse.v", r"."), ("LayerA.v", r"^A[1-7]_"), ("Refine.v", r"^Rf_st_|^Rf_StInv")],
-    "C05": [("C05.v", r"."), ("LayerA.v", r"^A8_")],
+    "C05": [("C05.v", r"."), ("LayerA.v", r"^A8_"), ("Sketch2.v", r"^C05_")],
     "C06": [("Wire.v", r"^C06_"), ("WireRaw.v", r"concat"), ("WireAny.v", r"^C06_")],
     "C07": [("Wire.v", r"^C07_"), ("WireRaw.v", r"."), ("WireAny.v", r"^C07_")],
     "C08": [("Wire.v", r"^C08_"), ("WireAny.v", r"^C08_"), ("C18.v", r"prefix_eof|reads_at_most_9"), ("C19.v", r"truncated|short_input|unknown_mapping")],
     "C09": [("Proto.v", r".")],
     "C10": [("C10.v", r".")],
-    "C11": [("Rank.v", r"^C11_"), ("Instance.v", r"^I_C11_")],
-    "C12": [("Sketch.v", r"^C12_"), ("Instance.v", r"^I_C12_"), ("Refine.v", r"Rf_plain_count|Rf_plain_is_empty|Rf_plain_max|Rf_plain_min|Rf_sk_foreach")],
+    "C11": [("Rank.v", r"^C11_"), ("Instance.v", r"^I_C11_"), ("Sketch2.v", r"^C11_")],
+    "C12": [("Sketch.v", r"^C12_"), ("Instance.v", r"^I_C12_"), ("Refine.v", r"Rf_plain_count|Rf_plain_is_empty|Rf_plain_max|Rf_plain_min|Rf_sk_foreach"), ("Sketch2.v", r"^C12_|^I_C12_")],
     "C13": [("Sketch.v", r"^C13_"), ("Refine.v", r"too_high|too_low|no_panic|Rf_sk_add")],
     "C14": [("C04pag.v", r"reads_pure|foreach|compact|key_at_rank"), ("C04pagloops.v", r"."), ("C04dense.v", r"foreach|key_at_rank|total|min_index|max_index"),
             ("C20.v", r"queries_transparent|inv_lower|inv_upper"), ("Refine.v", r"reads_pure|quantile_pure|copy")],
-    "C15": [("C04dense.v", r"inv_clear|clear_like_new"), ("C04pag.v", r"clear"), ("Sketch.v", r"^C15_"), ("C05.v", r"clear"), ("C04sparse.v", r"clear"), ("Refine.v", r"clear")],
-    "C16": [("Sketch.v", r"^C16_"), ("C04dense.v", r"reweight"), ("C04pag.v", r"reweight"), ("LayerA.v", r"^A5_|bscale"), ("C05.v", r"reweight"), ("Refine.v", r"reweight")],
-    "C17": [("ChangeMapping.v", r".")],
+    "C15": [("C04dense.v", r"inv_clear|clear_like_new"), ("C04pag.v", r"clear"), ("C05.v", r"clear"), ("C04sparse.v", r"clear"), ("Refine.v", r"clear")],
+    "C16": [("Sketch.v", r"^C16_"), ("C04dense.v", r"reweight"), ("C04pag.v", r"reweight"), ("LayerA.v", r"^A5_|bscale"), ("C05.v", r"reweight"), ("Refine.v", r"reweight"), ("C10.v", r"^reweight_")],
+    "C17": [("ChangeMapping.v", r"."), ("ChangeMappingF.v", r"."), ("C10.v", r"^rescale_")],
     "C18": [("C18.v", r".")],
-    "C19": [("C19real.v", r"."), ("C19.v", r".")],
+    "C19": [("C19real.v", r"."), ("C19.v", r"."), ("Glue.v", r"build_float64|decompose|f_of_int")],
     "C20": [("C20.v", r"."), ("Instance.v", r"^I_C20_")],
 }
 
@@ -137,6 +137,7 @@ def proof_status(pid, files=None):
         src = open(os.path.join(COQ, "Props", f)).read()
         src = re.sub(r"\(\*.*?\*\)", "", src, flags=re.S)
         names = [n for n in re.findall(r"^\s*(?:Theorem)\s+([\w']+)", src, flags=re.M) if re.search(pat, n)]
+        if not names: problems.append("the selection %r of Props/%s matches no theorem" % (pat, f))
         # the output of Print Assumptions is cached, keyed by the sources of the file's transitive imports
         cache = os.path.join(COQ, "Props", f[:-2] + ".out")
         key = closure_key(os.path.join("Props", f))
